@@ -21,6 +21,18 @@ for e in kf["findings"]:
         diff = subprocess.run(["git", "-C", "/repo", "show", e["commit"], "--", "bellows"], capture_output=True, text=True).stdout
         p = subprocess.run(["git", "apply", "-R", "-"], input=diff, cwd=d, capture_output=True, text=True)
         if p.returncode:
+            # a later fix: commit built on this one (same lines): undo the later ones that touch the same files first, newest first
+            files = [l[6:] for l in diff.splitlines() if l.startswith("+++ b/")]
+            later = subprocess.run(["git", "-C", "/repo", "log", "--format=%h", f"{e['commit']}..HEAD", "--"] + files, capture_output=True, text=True).stdout.split()
+            ok_all = True
+            for h in later:
+                dl = subprocess.run(["git", "-C", "/repo", "show", h, "--"] + files, capture_output=True, text=True).stdout
+                if subprocess.run(["git", "apply", "-R", "-"], input=dl, cwd=d, capture_output=True, text=True).returncode:
+                    ok_all = False
+                    break
+            if ok_all and later:
+                p = subprocess.run(["git", "apply", "-R", "-"], input=diff, cwd=d, capture_output=True, text=True)
+        if p.returncode:
             # context moved by later fixes: fall back to undoing the changed lines textually (single-hunk one-line fixes)
             minus = [l[1:] for l in diff.splitlines() if l.startswith("-") and not l.startswith("---")]
             plus = [l[1:] for l in diff.splitlines() if l.startswith("+") and not l.startswith("+++")]
